@@ -30,8 +30,8 @@ RULE = ('a case = (kind chunk|rdb|token, retry configuration (total, connect, re
         'HISTORY of uses of token strings in ONE process under a scripted clock (katdal.chunkstore_s3.time replaced by a '
         'proxy whose time() is set per use; nothing sleeps): each use = (entry decode_jwt | S3ChunkStore(url, token) + '
         'get_chunk | TelstateDataSource.from_url(...rdb?token=) | get_chunk on a store object constructed earlier in the '
-        'history, token out of a table of 9 hand-made JWTs (expiry T0+100 s / T0+200 s / none / already expired / given as '
-        'a string / out of scope / short signature / no prefix claim), clock T0 + offset in ms incl. the expiry second '
+        'history, token out of a table of 10 hand-made JWTs (expiry T0+100 s / T0+200 s / none / already expired / given as '
+        'a string / as a float / out of scope / short signature / no prefix claim), clock T0 + offset in ms incl. the expiry second '
         'itself, fractions just after it and clocks set back, URL https-exempt loopback or plain http://localhost, fault '
         'script); all histories of 2 uses over 2 tokens x 3 entries (+ call) x 6 clock pairs plus random histories of 3-8 '
         'uses; compared per use. site cases = put_chunk | is_complete | mark_complete on a fresh store with a fault script '
@@ -138,7 +138,7 @@ def is_slow(sym):
 
 
 def wire_cfg(cfg):
-    if len(cfg) == 2:
+    if len(cfg) <= 2:            # [connect, read] | [n] (one number for both) | [] (no `retries` argument at all)
         return list(cfg)
     opt = lambda v: [] if v is None else [v]
     return [opt(cfg[0]), opt(cfg[1]), opt(cfg[2]), opt(cfg[3]), list(cfg[4])]
@@ -148,6 +148,8 @@ def retries_of(cfg):
     from urllib3.util.retry import Retry
     if len(cfg) == 2:
         return tuple(cfg)
+    if len(cfg) == 1:
+        return int(cfg[0])
     return Retry(total=cfg[0], connect=cfg[1], read=cfg[2], status=cfg[3], backoff_factor=0,
                  status_forcelist=tuple(cfg[4]))
 
@@ -213,7 +215,9 @@ def impl_chunk(case, read_timeout):
     bstate = ('full', 'empty', 'missing')[case.get('bucket', 0)]
     fake.arm([], [], bstate, p['data'])
     try:
-        store = S3ChunkStore(url, timeout=(2, read_timeout), retries=retries_of(case['cfg']), **kw)
+        if case['cfg']:
+            kw['retries'] = retries_of(case['cfg'])
+        store = S3ChunkStore(url, timeout=(2, read_timeout), **kw)
         if case.get('verified'):
             fake.arm([('status', 404)], [], 'full', p['data'])
             try:
@@ -228,6 +232,7 @@ def impl_chunk(case, read_timeout):
             cls = 7
     except Exception as e:
         cls = classify_exc(e)
+        _state['last_exc'] = str(e)
     log = fake.requests()
     return cls, ''.join(k[0] for k in log), log
 
@@ -414,8 +419,10 @@ def compare(ctx, case, mout, read_timeout=0.5, confirm=True):
         if mcls != scls and not problems:
             problems.append(('property', 'model_vs_spec', mcls, scls))
     else:
+        _state.pop('last_exc', None)
         icls, ireq, log = impl_chunk(case, read_timeout)
         mcls, mn, bad = mout[0][0], mout[1], mout[2]
+        reason = [c for text, codes_ in REASONS if text in _state.get('last_exc', '') for c in codes_]
         want_req_m = 'O' * mn
         problems = []
         if bad and (icls in (OK, 7) or ireq != ''):
@@ -424,6 +431,8 @@ def compare(ctx, case, mout, read_timeout=0.5, confirm=True):
             problems.append(('property', 'missing_authorization_header', icls, mcls))
         if case.get('class_named', True) and (icls != mcls or ireq != want_req_m):
             problems.append(('tie', 'result' if icls != mcls else 'requests', icls, mcls))
+        elif reason and mout[3] not in reason:
+            problems.append(('tie', 'reject_reason', icls, mcls))     # which check of the chain fired
     if problems and confirm and read_timeout < 2.0:
         # possible scheduling noise (a slow good response looks like a stall): confirm with a generous timeout
         return compare(ctx, case, mout, read_timeout=2.5, confirm=False)
@@ -525,7 +534,7 @@ def gen_cases(ctx):
             cases.append(dict(kind='chunk', cfg=[10, 1, read, status, list(GLITCHES)], payload=2, fs=[[0, 404]],
                               fsb=fsb, bucket=rng.choice((0, 1, 2)), verified=False))
     # (d) the default configuration (ints): at most one transient fault (the first back-off is zero)
-    for cfgd in ([2, 2], [0, 1], [1, 0]):
+    for cfgd in ([2, 2], [0, 1], [1, 0], [2], [0], [1], []):
         for s in ([0, 503], [1, 40], [4, 0], [0, 404], [0, 401], [2, 9]):
             cases.append(dict(kind='chunk', cfg=list(cfgd), payload=1, fs=[s], fsb=[], bucket=0, verified=False))
             cases.append(dict(kind='chunk', cfg=list(cfgd), payload=1, fs=[s, [0, 403]] if s[1] not in (404, 401) else [s],
@@ -743,7 +752,8 @@ def hist_tokens():
             dict(label='exp100other', claims={"prefix": ["other"], "exp": T0 + 100}),
             dict(label='exp100short', claims={"prefix": ["bkt"], "exp": T0 + 100}, siglen=85),
             dict(label='exp100noprefix', claims={"exp": T0 + 100}),
-            dict(label='exp150two', claims={"prefix": ["zz", "bk"], "exp": T0 + 150})]
+            dict(label='exp150two', claims={"prefix": ["zz", "bk"], "exp": T0 + 150}),
+            dict(label='exp100float', claims={"prefix": ["bkt"], "exp": T0 + 100.75})]
 
 
 def hist_claims(case, t, attempt=0):
@@ -1058,8 +1068,13 @@ def compare_site(ctx, case, mout, read_timeout=0.5, confirm=True):
     paths = [e[2].split('?')[0] for e in log]
     if site == 'mark':
         mcls, nb, n = mout[0][0], mout[1], mout[2]
+        scls, snb, sn = mout[3][0], mout[4], mout[5]
         want = ['/bkt'] * nb + ['/bkt/arr/complete'] * n
         case['_consumed'] = nb + n
+        if icls != scls:
+            problems.append(('property', 'result', icls, scls))
+        elif paths != ['/bkt'] * snb + ['/bkt/arr/complete'] * sn:
+            problems.append(('property', 'requests', icls, scls))
         if icls != mcls or paths != want:
             problems.append(('tie', 'result' if icls != mcls else 'requests', icls, mcls))
         if any(e[1] != 'PUT' for e in log):
